@@ -262,6 +262,14 @@ func vExecStep(s *drv.Server, bucket string, m *model.VersionModel, st vstep, st
 				sb.WriteString("<VersionId>" + id + "</VersionId>")
 				pends = append(pends, pend{it.Key, e})
 			} else {
+				if !m.Ever && (stepNo+len(pends))%2 == 0 {
+					// in a bucket that never had versioning every object is version 'null' (what
+					// ListObjectVersions reports): naming it is the plain delete
+					sb.WriteString("<VersionId>null</VersionId>")
+					if r != nil {
+						r.Count("multi_delete_null_versions", 1)
+					}
+				}
 				pends = append(pends, pend{it.Key, nil})
 			}
 			sb.WriteString("</Object>")
